@@ -20,7 +20,8 @@ FLOORS = {"requests_honoured": {"quick": 3000, "thorough": 40000}, "cycles_compa
           "nested_requests": {"quick": 200, "thorough": 2000}, "dynamic_child_runs_compared": {"quick": 1500, "thorough": 25000},
           "combiner_requests_honoured": {"quick": 2000, "thorough": 30000},
           "map_child_start_requests_honoured": {"quick": 100, "thorough": 1500},
-          "list_map_child_requests_honoured": {"quick": 300, "thorough": 5000}}
+          "list_map_child_requests_honoured": {"quick": 300, "thorough": 5000},
+          "try_child_requests_honoured_after_caught_error": {"quick": 200, "thorough": 3000}}
 BATCH = 25
 
 
@@ -44,6 +45,8 @@ def generate(rng, tier, seed):
         cases.append(gen_map_start_timers(rng, f"c02_{seed}_ms{k}"))
     for k in range(n // 8):
         cases.append(gen_listmap_timers(rng, f"c02_{seed}_lm{k}"))
+    for k in range(n // 8):
+        cases.append(gen_try_timers(rng, f"c02_{seed}_tt{k}"))
     return cases
 
 
@@ -125,6 +128,23 @@ def gen_listmap_timers(rng, name):
     return c
 
 
+def gen_try_timers(rng, name):
+    """try_except around a sub-graph that holds self-scheduling nodes and a node that throws once: the exception is caught, the
+    wake-ups still pending inside the child must be honoured afterwards (the owner re-arms from the abandoned cycle too)."""
+    from .prog import Case, S
+    end = rng.choice([24, 36])
+    c = Case(name, 0, end)
+    c.scripts[1] = [(t, t) for t in sorted(rng.sample(range(0, end), rng.choice([1, 2, 4])))]
+    per = rng.choice([2, 3, 5])
+    c.graphs["sub0"] = [S("tk", "ticker", uid=101, period=per, count=rng.choice([5, 8])), S("w", "pass", "tk", uid=102),
+                        S("dl", "delay", "w", uid=103, k=rng.choice([1, 4])), S("q", "add2", "w", "p0", uid=104), S("", "RET", "w")]
+    c.graphs["main"] = [S("a", "src", uid=1, mode=1), S("r_", "try", "a", sid=0), S("o_", "tryout", "r_", uid=300), S("", "tryerr", "r_", uid=301)]
+    c.faults = [(rng.choice([102, 103]), "eval", rng.choice([1, 2, 3]))]
+    c.meta["kind2"] = "reduce_timers"
+    c.meta["family"] = "try_timers"
+    return c
+
+
 def root_cycle_info(run):
     cycles, nexts, slots = [], {}, {}
     for seq, kind, tk in run.events:
@@ -178,6 +198,7 @@ def check_reduce_timers(case, tr):
         return res
     run = tr.runs[0]
     cycles, evals_at, open_t, reqs, stopped = [], {}, {}, [], {}
+    abandoned = set()
     tnow = None
     for seq, kind, tk in run.events:
         if kind == "C<":
@@ -196,10 +217,14 @@ def check_reduce_timers(case, tr):
             reqs.append((int(tk[0]), int(tk[1]), int(tk[2]), int(tk[3]), int(tk[4]), tk[5]))
         elif kind == "G->":
             stopped[int(tk[0])] = tnow
+        elif kind == "u.throw":
+            abandoned.add(tnow)
     honoured = retired = 0
     for uid, gid, idx, t_made, t_when, phase in reqs:
         if t_when <= t_made or t_when >= case.end:
             continue
+        if t_when in abandoned:
+            continue                  # the cycle in which it fell due was abandoned by a (captured) exception before the node's turn
         if gid in stopped and stopped[gid] is not None and stopped[gid] <= t_when:
             retired += 1              # the combiner was retired before its wake-up fell due
             continue
@@ -211,6 +236,8 @@ def check_reduce_timers(case, tr):
             continue
         honoured += 1
     res.counters = {"combiner_requests_honoured": honoured, "combiner_requests_retired": retired}
+    if case.meta.get("family") == "try_timers":
+        res.counters = {"try_child_requests_honoured_after_caught_error": honoured}
     if case.meta.get("family") == "listmap_timers":
         res.counters = {"list_map_child_requests_honoured": honoured}
     if case.meta.get("family") == "map_start_timers":
